@@ -540,7 +540,7 @@ func c15Run(c *Case) {
 func init() {
 	register(&Prop{
 		ID: "C15", Level: "exploration",
-		Rule:          "sampled histories of 5-40 operations (push pop popfirst index-read index-write length contains sort, nested method calls inside arguments) over two arrays held by a variable, $-path, object member or array element, in half of the histories the first one also by a second name through which a third of the operations go (a length change is seen through every reference), element values of every kind; after every operation the program prints the result and json()/length() of both arrays, compared with an ideal-list model; candidate steps leaving the stated semantics are discarded with the model. Enumerated: every ordered pair of 13 operations on arrays of length 0,1,2,5 (676 programs); contains(v) vs v == a[0] on 17x17 value pairs (law on the implementation alone); 16 programs that grow arrays of the input document which are siblings in a parent array (rows of a table, cells of a grid); 8 sorts of strings that spell numbers; contains() on arrays of 31-100 strings / numbers before and after stores that keep the length (24 programs); sort() of 0-3 elements gives a new array (24 programs storing / pushing / popping through the result and the receiver afterwards); 40 sorts of 13-52 elements with equal keys of different kinds (stable). Non-trivial = history with a removal followed by an append/extension, or a nested call; distinct by program text. Laws on the implementation alone: contains(v) == (v == a[0]) over 19 x 19 values incl. two unset names; 96 pairs of huge indices (what a read or store does at 2^62 it also does at 2^63, 2^64, 1e23; likewise before the start) on literals and document arrays.",
+		Rule:          "sampled histories of 5-40 operations (push pop popfirst index-read index-write length contains sort, nested method calls inside arguments) over two arrays held by a variable, $-path, object member or array element, in half of the histories the first one also by a second name through which a third of the operations go (a length change is seen through every reference), element values of every kind; after every operation the program prints the result and json()/length() of both arrays, compared with an ideal-list model; candidate steps leaving the stated semantics are discarded with the model. Enumerated: every ordered pair of 13 operations on arrays of length 0,1,2,5 (676 programs); contains(v) vs v == a[0] on 17x17 value pairs (law on the implementation alone); 16 programs that grow arrays of the input document which are siblings in a parent array (rows of a table, cells of a grid); 8 sorts of strings that spell numbers; contains() on arrays of 31-100 strings / numbers before and after stores that keep the length (24 programs); sort() of 0-3 elements gives a new array (24 programs storing / pushing / popping through the result and the receiver afterwards); 40 sorts of 13-52 elements with equal keys of different kinds (stable). Non-trivial = history with a removal followed by an append/extension, or a nested call; distinct by program text. Laws on the implementation alone: contains(v) == (v == a[0]) over 19 x 19 values incl. two unset names; 96 pairs of huge indices (what a read or store does at 2^62 it also does at 2^63, 2^64, 1e23; likewise before the start) on literals and document arrays. 7 hand-computed programs whose call argument stores into the receiver's own location.",
 		NumCases:      c15Cases,
 		Run:           c15Run,
 		MinConclusive: func(tier string) int { return 3000 },
